@@ -7,6 +7,7 @@ Model: Model/MessageSetReader.lean (message_reader.go + batch.go as a token mach
 -/
 import KafkaVerif.Model.Batch
 import KafkaVerif.Spec.Layout
+import KafkaVerif.Lemmas.FetchDecoder
 
 namespace KV.C02
 
@@ -51,5 +52,53 @@ theorem compacted_tail_stuck_counterexample :
 theorem compacted_tail_fixed :
     fetchOnce .fixed d15Layout 112 100 100 = ([(100, 7), (101, 8)], 110, .eof) ∧
     fetchOnce .fixed d15Layout 112 110 100 = ([(110, 9), (111, 10)], 112, .eof) := by decide
+
+/-! ## 1. One fetch round (`Conn.ReadBatch`, `ReadMessage` until it fails, `Close`) on the repaired code
+
+Full statement (DESIGN §7 C02 `single_fetch`): for every layout `L` of a log — message formats 0, 1 and 2 — every
+byte cut and every start offset `o`: the delivered sequence is exactly the completely contained records of `L` with
+offset ≥ o (hence increasing, each once, digests intact), the decoder never desynchronises/panics, and no stored
+record `r` with `o ≤ r.offset < connOffset'` is undelivered.
+
+Proved below for all layouts made of v2 record batches (`V2WF`: plain or compressed batches, compaction holes at the
+head, inside and at the tail, any number of retained empty batches, whole-batch gaps; any cut, any `o`, deadline
+expired or not) — the part of the code D4/D14/D15 live in.  For v0/v1 messages and wrappers (and mixed logs) the same
+statement is checked by the correspondence + monitor on generated layouts only, hence the name `_partial`. -/
+
+theorem single_fetch_partial (items : List Item) (nb : Int) (hnb : 0 ≤ nb) (hwf : V2WF nb items)
+    (o hwm : Int) (ho : 0 ≤ o) (hne : hwm ≠ o) (cut : Int) (expired : Bool) :
+    let res := readAll .fixed expired o hwm (responseTokens items cut)
+    res.1 = (containedRecords items cut).filter (fun r => o ≤ r.1) ∧
+    res.2.2 ≠ .desync ∧
+    (∀ r ∈ allRecords items, o ≤ r.1 → r.1 < res.2.1 → r ∈ res.1) := by
+  -- reduce both cases of `cut` to `runCut` with a byte budget
+  have key : ∀ n : Nat, (cut < 0 → itemsSize items ≤ n ∧ totalSize (allTokens items) ≤ n) → (0 ≤ cut → n = cut.toNat) →
+      run .fixed expired o { off := o } (responseTokens items cut) = runCut .fixed expired o { off := o } (allTokens items) n ∧
+      containedRecords items cut = contained items n := by
+    intro n h1 h2
+    by_cases hc : cut < 0
+    · obtain ⟨ha, hb⟩ := h1 hc
+      simp only [responseTokens, containedRecords, hc, if_true]
+      exact ⟨(runCut_all _ _ _ _ _ _ hb).symm, (contained_all _ _ ha).symm⟩
+    · have := h2 (by omega)
+      subst this
+      simp only [responseTokens, containedRecords, hc, if_false]
+      exact ⟨run_truncate _ _ _ _ _ _, trivial⟩
+  obtain ⟨n, hn1, hn2⟩ : ∃ n : Nat, (cut < 0 → itemsSize items ≤ n ∧ totalSize (allTokens items) ≤ n) ∧ (0 ≤ cut → n = cut.toNat) := by
+    by_cases hc : cut < 0
+    · exact ⟨itemsSize items + totalSize (allTokens items), fun _ => ⟨by omega, by omega⟩, fun h => by omega⟩
+    · exact ⟨cut.toNat, fun h => absurd h hc, fun _ => rfl⟩
+  obtain ⟨hrun, hcont⟩ := key n hn1 hn2
+  have hp := v2_run expired o items nb { off := o } n hwf (bnd_init ho hnb)
+  simp only [readAll, hne, if_false, hrun, hcont]
+  refine ⟨by simpa using hp.out, hp.ok, ?_⟩
+  intro r hr h1 h2
+  rw [hp.out]
+  simp only [List.nil_append, List.mem_filter, decide_eq_true_eq]
+  exact ⟨hp.nogap r hr h1 h2, h1⟩
+
+/-- the hypotheses are met by a log with compaction holes, an empty batch and a compressed batch -/
+example : V2WF 0 [.b2 100 104 false 36 [(0, 1, 12), (2, 2, 12), (3, 3, 12)], .b2 105 109 false 0 [],
+    .b2 112 115 true 40 [(1, 4, 20), (3, 5, 20)]] := by simp [V2WF, RecsWF, sumSizes]
 
 end KV.C02
